@@ -70,6 +70,7 @@ Definition setHeight (s : state) (n : nid) (h : Z) : M :=
 
 (* Graph.SetStale *)
 Definition setStale (s : state) (n : nid) : res state :=
+  if height (nd s n) =? unset then Ok s else      (* not in the graph: nothing to queue *)
   let s := upd s n (set setAt (fun _ => stabNum s)) in
   if inHeap s n then Ok s else heapAdd s n.
 
@@ -124,7 +125,9 @@ Definition addNode (s : state) (n : nid) : state :=
 Definition zeroNode (s : state) (n : nid) : res state :=
   s <-! (if inHeap s n then heapRemove s n else Ok s);
   let s := s <| numNodes := numNodes s - 1 |>
-             <| handlers := rm n (handlers s) |> <| setDuring := rm n (setDuring s) |> in
+             <| handlers := rm n (handlers s) |>
+             <| setRemoved := if bool_decide (n ∈ setDuring s) then setRemoved s ++ [n] else setRemoved s |>
+             <| setDuring := rm n (setDuring s) |> in
   Ok (upd s n (fun x => x <| setAt := 0 |> <| changedAt := 0 |> <| recomputedAt := 0 |>
                           <| valid := true |> <| parents := [] |> <| children := [] |>
                           <| observers := [] |> <| height := unset |> <| hAdj := unset |>)).
@@ -334,7 +337,7 @@ Definition changeParent (fuel : nat) (s : state) (child : nid) (oldP newP : opti
   | Some o, None =>
     let s := unlink s child o in
     lift (checkIfUnnecessary fuel s o)
-  | None, None => fail s ENilParent   (* addChild(child, nil) returns errParentNil *)
+  | None, None => ok s                (* nothing linked, nothing to link *)
   end.
 
 (** ** Creating nodes *)
@@ -437,8 +440,7 @@ Definition bindLhsStabilize (fuel : nat) (p : plan) (s : state) (b : nat) : M :=
   let x := valueOf s (b_lhs br) in
   '(s, e) <-! invoke p s b WFn;
   match e with
-  | Some (EPanic m) => fail s (EPanic m)                       (* rhs not assigned *)
-  | Some e => fail (updb s b (set b_rhs (fun _ => None))) e    (* rhs, err = fn(...): rhs = nil *)
+  | Some e => fail (updb s b (set b_rhsNodes (fun _ => oldNodes))) e   (* the deferred restore *)
   | None =>
     let cases := b_cases br in
     let case := nth (Z.to_nat (x mod Z.of_nat (length cases))) cases TNil in
@@ -460,8 +462,11 @@ Definition stabilizeNode (fuel : nat) (p : plan) (s : state) (n : nid) : M :=
   let x := nd s n in
   match nkind x with
   | KVar _ =>
+    (* a deferred value is not taken by the recompute cycle of the pass it was set in:
+       that cycle has just stamped recomputedAt with the pass's number *)
     match pending x with
-    | Some v => ok (upd s n (fun x => x <| value := v |> <| pending := None |>))
+    | Some v => if recomputedAt x =? stabNum s then ok s
+                else ok (upd s n (fun x => x <| value := v |> <| pending := None |>))
     | None => ok s
     end
   | KReturn | KAlways => ok s
@@ -607,8 +612,8 @@ Fixpoint passLoop (fuel : nat) (p : plan) (s : state) (always : list nid)
     | None => Crash NilDeref
     | Some (n, w) =>
       let s := s <| heap := w |> in
-      '(s, e, at_) <-! recomputeChain fuel p s n;
       let always := if isAlways (nkind (nd s n)) then always ++ [n] else always in
+      '(s, e, at_) <-! recomputeChain fuel p s n;
       match e with
       | Some _ => Ok (s, e, at_, always)
       | None => passLoop fuel p s always
@@ -629,8 +634,8 @@ Definition runUpdateHandlers (s : state) : state :=
 Definition applyDeferredSets (s : state) : res state :=
   s <-! rfold (fun s v =>
                  '(s, _) <-! stabilizeNode 0 [] s v;
-                 setStale s v) (setDuring s) s;
-  Ok (s <| setDuring := [] |>).
+                 setStale s v) (setRemoved s ++ setDuring s) s;
+  Ok (s <| setDuring := [] |> <| setRemoved := [] |>).
 
 Definition stabilizeEnd (s : state) (e : option err) : res state :=
   let s := emit (EvPassEnd (classify e)) s in
@@ -645,13 +650,16 @@ Definition stabilize (p : plan) (cancelled : bool) (s : state) : M :=
   '(s, e, at_, always) <-!
      (if cancelled && (0 <? Heap.cnt (heap s)) then Ok (s, Some ECancelled, 0%nat, [])
       else passLoop (passFuel s) p s []);
+  (* the deferred requeue of always nodes: runs however the pass ended, skips nodes that
+     left the graph during the pass *)
+  s <-! rfold (fun s n => if height (nd s n) =? unset then Ok s else heapAddIfNotPresent s n) always s;
   s <-! (match e with
          | Some (EPanic _) =>
            (* the deferred recover: recomputePanicked(graph.recomputingNode) *)
            let s := upd s at_ (set recomputedAt (fun _ => 0)) in
            s <-! heapAddIfNotPresent s at_;
            Ok (errorHandlers s at_)
-         | _ => rfold heapAddIfNotPresent always s
+         | _ => Ok s
          end);
   s <-! stabilizeEnd s e;
   Ok (s, e).
@@ -679,7 +687,9 @@ Definition unobserve (s : state) (o : nat) : res state :=
 (** ** MapN.AddInput / RemoveInput *)
 Definition addInput (s : state) (n a : nid) : M :=
   let s := upd s n (set decl (fun l => l ++ [a])) in
-  if height (nd s n) =? unset then ok s else addChild (opFuel s) s n a.
+  if height (nd s n) =? unset then ok s else
+  s <-? addChild (opFuel s) s n a;
+  lift (setStale s n).
 
 Definition removeInput (s : state) (n a : nid) : res state :=
   if negb (bool_decide (a ∈ decl (nd s n))) then Ok s else
